@@ -177,17 +177,7 @@ func (me *multiEnv) trackFirst(p *mPair, res *scen.StepResult) {
 		}
 		dc := p.pm.classify(rec)
 		if p.first == 0 && len(dc.cursorIns) > 0 {
-			lo := dc.cursorIns[0].num
-			if n, ok := lastHashLookup(res.Served); ok && n+1 <= lo {
-				lo = n + 1
-			}
-			if p.pm.start > 0 && p.pm.start <= lo {
-				lo = p.pm.start // a pair without a position begins at its configured start
-			}
-			p.first = lo
-			if os.Getenv("VERIF_DEBUG") != "" {
-				fmt.Fprintf(os.Stderr, "trackFirst %s first=%d cursor=%d served=%+v\n", p.name(), lo, dc.cursorIns[0].num, res.Served)
-			}
+			p.first = firstBlockOf(p.pm.start, res.Served, dc.cursorIns[0].num)
 		}
 		if rec.Snap != nil {
 			st := p.pm.captureSnap(rec.Snap)
